@@ -51,7 +51,7 @@ theorem constValue_fits (p : Program) (enums : List (Nat × List Nat)) (structs 
       · rename_i k vs hfind
         simp only [Option.map_eq_some_iff] at h; obtain ⟨i, hi, rfl⟩ := h
         have hlt : i < vs.length := (List.getElem?_eq_some_iff.mp (indexOf_spec hi)).1
-        exact fit_enum_mk (q := (k, vs)) (by rw [hpe]; exact hfind) (Int.ofNat_zero_le i) (Int.ofNat_lt.mpr hlt)
+        exact fit_enum_mk (q := (k, vs)) (by rw [hpe]; exact hfind) (Int.natCast_nonneg i) (Int.ofNat_lt.mpr hlt)
 
 theorem lowerFun_funOk {cx : LCtx} {fd fd' : FunDef} (h : lowerFun cx fd = some fd')
     (hb : fragSs fd.body = true) (hr : fd.ret.neverFree = true) (hp : ∀ q ∈ fd.params, q.2.neverFree = true) :
